@@ -132,3 +132,41 @@ contract(
     gen=_gen, call_native=_call,
     note="generated automatic names differ from every existing name of the family",
 )
+
+
+# ------------------------------------------------------------------ Document._unique_style_name (names for table display styles)
+def _gen_unique(con, sigcase, count, seed):
+    import itertools
+    alpha = ["ta_0", "ta_1", "ta_2", "ta_10", "ta_", "ta_x", "other"]
+    for n in range(0, 4):
+        for names in itertools.product(alpha, repeat=n):
+            if len(set(names)) == len(names):
+                yield {"names_": list(names)}
+
+
+def _call_unique(con, fn, argvals, labels):
+    from odfdo import Document, Style
+    from pyvc.native import NativeResult
+    res = NativeResult()
+    res.checked = 1
+    doc = Document("spreadsheet")
+    for n in argvals["names_"]:
+        doc.insert_style(Style("table", name=n), automatic=True)
+    existing = [s.name for s in doc.get_styles()]
+    got = doc._unique_style_name("ta")
+    res.outcome = got
+    if got in existing or not got.startswith("ta_") or not got[3:].isdigit():
+        res.failures.append(("ensures:unique-name", f"_unique_style_name('ta') = {got!r} with the styles inserted in the order "
+                                                    f"{argvals['names_']!r}"))
+    return res
+
+
+contract(
+    "odfdo.document:Document._unique_style_name",
+    sig=dict(names_=StrList),
+    ensures=[Clause("unique-name", {"C13"}, lambda a, r, p: True)],
+    gen=_gen_unique, call_native=_call_unique,
+    bounded=dict(scope="every ordering of at most 3 distinct table-style names out of {ta_0, ta_1, ta_2, ta_10, ta_, ta_x, other} "
+                       "inserted as automatic styles of a spreadsheet: the generated name has the form ta_N and is not in use",
+                 reason="`while True` probe over a set of names read through XPath (get_styles assumed)"),
+)
